@@ -225,13 +225,14 @@ def limitsOp (s : State) (m : Minter) (op : Op) : MintLimits.Op :=
     .setWhitelist sender wl (kindAt s wl) (!funds.isEmpty) (decide (m.startTime ≤ s.now)) (activeAt s m.whitelist)
       (activeAt s (some wl)) (accepted s op)
   | .purge _ funds => .purge (!funds.isEmpty) (accepted s op)
+  -- governance: the RESULTING value, so a refused `sudo UpdateParams` is a no-op
+  | .sudoParams _ => .govern (step' s op).params.maxPerAddressLimit
   | _ => .env
 
-/-- the environment parameters the aspect model holds constant during a case: the factory's `max_per_address_limit`
-and the (address, kind) binding of the attached whitelist -/
+/-- the one environment parameter the aspect model holds constant during a case: the (address, kind) binding of the attached
+whitelist (governance moving `max_per_address_limit` is the aspect op `govern`) -/
 def EnvStable (s : State) (op : Op) : Prop :=
-  ∀ m, s.minter = some m →
-    (step' s op).params.maxPerAddressLimit = s.params.maxPerAddressLimit ∧ wlBinding (step' s op) m = wlBinding s m
+  ∀ m, s.minter = some m → wlBinding (step' s op) m = wlBinding s m
 
 theorem mint_pre_false (a : MintLimits.State) (x : Addr) (f : MintLimits.Fields) (v : MintLimits.View) (st : Bool) :
     ∃ e, MintLimits.step a (.mint x f v st false) = .error e := by
@@ -282,6 +283,9 @@ theorem wlBinding_congr {s s' : State} {m m' : Minter} (hw : s'.wls = s.wls) (hm
 
 /-- the state-only step of the aspect model on `.env` is the identity -/
 theorem limStep'_env (a : MintLimits.State) : limStep' a .env = a := by
+  simp [limStep', MintLimits.stepAcc, MintLimits.step]
+
+theorem limStep'_govern (a : MintLimits.State) (mp : Nat) : limStep' a (.govern mp) = { a with maxPerAddr := mp } := by
   simp [limStep', MintLimits.stepAcc, MintLimits.step]
 
 /-- a REJECTED composite message changes nothing in the aspect model either -/
@@ -351,6 +355,9 @@ theorem limits_sim_err {s : State} {m : Minter} {op : Op} {e : Err} (hm : s.mint
               obtain ⟨m', hm'⟩ := hupd
               rw [hm'] at h
               cases h
+  | sudoParams u =>
+    simp only [limitsOp, step'_err h, limStep'_govern]
+    rfl
   | _ => simp only [limitsOp]; exact limStep'_env _
 
 /-- an ACCEPTED composite message acts on the projection exactly as the translated aspect op
@@ -362,8 +369,8 @@ theorem limits_sim_ok {s s' : State} {m : Minter} {op : Op} (hm : s.minter = som
       limitsOf s' m' = limStep' (limitsOf s m) (limitsOp s m op) := by
   have hacc := accepted_of_ok h
   have hs' := step'_ok h
-  obtain ⟨hstp, hstw⟩ := hst m hm
-  rw [hs'] at hstp hstw
+  have hstw := hst m hm
+  rw [hs'] at hstw
   cases op with
   | setTime t =>
     simp only [step] at h; split at h <;> cases h
@@ -373,6 +380,7 @@ theorem limits_sim_ok {s s' : State} {m : Minter} {op : Op} (hm : s.minter = som
     exact ⟨m, hm, .other, by simp only [limitsOp, limStep'_env, MintLimits.step], by simp only [limitsOp, limStep'_env]; rfl⟩
   | wlEnv k i =>
     have hmin : s'.minter = some m := by simp only [step] at h; cases h; exact hm
+    have hstp : s'.params.maxPerAddressLimit = s.params.maxPerAddressLimit := by simp only [step] at h; cases h; rfl
     exact ⟨m, hmin, .other, by simp only [limitsOp, limStep'_env, MintLimits.step], by simp only [limitsOp, limStep'_env]; exact limitsOf_congr hstp hstw rfl rfl rfl rfl rfl rfl rfl rfl rfl⟩
   | create sender funds msg w =>
     simp only [step] at h
@@ -381,7 +389,9 @@ theorem limits_sim_ok {s s' : State} {m : Minter} {op : Op} (hm : s.minter = som
   | instantiateDirect sender => simp [step] at h
   | sudoParams u =>
     have hmin : s'.minter = some m := by simp only [step] at h; split at h <;> cases h; exact hm
-    exact ⟨m, hmin, .other, by simp only [limitsOp, limStep'_env, MintLimits.step], by simp only [limitsOp, limStep'_env]; exact limitsOf_congr hstp hstw rfl rfl rfl rfl rfl rfl rfl rfl rfl⟩
+    refine ⟨m, hmin, .other, by simp only [limitsOp, hs', limStep'_govern, MintLimits.step], ?_⟩
+    simp only [limitsOp, hs', limStep'_govern]
+    simp only [limitsOf, hstw]
   | mint sender funds f sv picked =>
     simp only [step] at h
     obtain ⟨m0, hm0, h⟩ := withMinterS_ok h
